@@ -67,6 +67,19 @@ func (c *Map) FindRegex(key *regexp.Regexp) []types.MatchData {
 		if key.MatchString(k) {
 			n += len(data)
 			matched = append(matched, data)
+		} else if !c.isCaseSensitive {
+			// Keys are stored lower-cased: also try the key as it was sent, otherwise
+			// a selector written with upper-case letters could never match.
+			var asSent []keyValue
+			for _, d := range data {
+				if d.key != k && key.MatchString(d.key) {
+					asSent = append(asSent, d)
+				}
+			}
+			if len(asSent) > 0 {
+				n += len(asSent)
+				matched = append(matched, asSent)
+			}
 		}
 	}
 	if n == 0 {
